@@ -1,7 +1,9 @@
 package props
 
 import (
+	structform "github.com/elastic/go-structform"
 	"github.com/elastic/go-structform/gotype"
+	"github.com/elastic/go-structform/json"
 
 	"verif/harness/ev"
 	"verif/harness/rt"
@@ -75,4 +77,105 @@ func TWO_PIPELINES(h *rt.H) {
 	same := o1.A == in.A && o2.A == in.A && rt.BytesEq([]byte(o1.B), []byte(in.B)) && rt.BytesEq([]byte(o2.B), []byte(in.B))
 	h.Assert("same-result-as-alone", same && len(o1.C) == 1 && len(o2.C) == 1 && o1.C[0] == in.C[0] && o2.C[0] == in.C[0] && o1.E != nil && o2.E != nil && o1.E.X == in.E.X && o2.E.X == in.E.X)
 	_ = ev.Nil
+}
+
+// TWO_PARSERS (C19): two parsers of the same format, each with its own recorder, fed
+// from one shared buffer that has spare capacity behind the document: pipeline 1 in
+// three chunks shared[:i], shared[i:j], shared[j:n] (every i<j), pipeline 2 in two
+// chunks (every cut). Neither may write the shared array (not even its spare
+// capacity) and both report what a parser running alone on a private copy reports.
+func TWO_PARSERS(h *rt.H) {
+	ci := h.Choose("codec", 0, 2)
+	c := []*codec{jsonCodec, ubjsonCodec, cborCodec}[ci]
+	s := h.Bytes("S", 5)
+	for _, b := range s {
+		h.Assume(b >= 'a' && b <= 'z')
+	}
+	hi, lo := h.U8("hi"), h.U8("lo")
+	var doc []byte
+	switch ci {
+	case 0:
+		h.Assume(hi >= '1' && hi <= '9' && lo >= '0' && lo <= '9')
+		doc = []byte{'[', '"', s[0], s[1], s[2], '"', ',', hi, lo, '0', '7', ',', '"', s[3], s[4], '"', ']'}
+	case 1:
+		doc = []byte{'[', 'S', 'U', 3, s[0], s[1], s[2], 'I', hi, lo, 'S', 'U', 2, s[3], s[4], ']'}
+	default:
+		doc = []byte{0x9f, 0x63, s[0], s[1], s[2], 0x19, hi, lo, 0x62, s[3], s[4], 0xff}
+	}
+	n := len(doc)
+	shared := make([]byte, n, n+32)
+	copy(shared, doc)
+	i := h.Choose("i", 1, n-2)
+	j := h.Choose("j", i+1, n-1)
+	k := h.Choose("k", 1, n-1)
+	run := func(cuts []int, rec *ev.Recorder, errOut *error) func() {
+		return func() {
+			rec.Events = nil
+			p := c.newParser(rec)
+			prev := 0
+			for _, cut := range append(cuts, n) {
+				if _, err := p.Write(shared[prev:cut]); err != nil {
+					*errOut = err
+					return
+				}
+				prev = cut
+			}
+		}
+	}
+	var r1, r2, alone ev.Recorder
+	var e1, e2 error
+	h.Go(run([]int{i, j}, &r1, &e1), run([]int{k}, &r2, &e2))
+	h.AssertIndependent("independent")
+	h.Assert("no-error", e1 == nil && e2 == nil)
+	h.Assert("input-untouched", rt.BytesEq(shared[:n], doc))
+	errAlone := c.parse(cloneBytes(doc), &alone)
+	h.Assert("same-result-as-alone", errAlone == nil && ev.Equal(r1.Events, alone.Events) && ev.Equal(r2.Events, alone.Events))
+}
+
+// TWO_ENCODERS (C19): two encoders of the same format on their own sinks, with their
+// own option settings, writing shared strings and keys: no store to anything that
+// existed before, and each output equals what the same encoder produces alone.
+func TWO_ENCODERS(h *rt.H) {
+	ci := h.Choose("codec", 0, 2)
+	c := []*codec{jsonCodec, ubjsonCodec, cborCodec}[ci]
+	// ASCII only (UTF-8 handling is C07's subject); '<', '>', '&' and the control
+	// characters are in range
+	kb, sb := h.Bytes("K", 1), h.Bytes("S", 2)
+	h.Assume(kb[0] < 0x80 && sb[0] < 0x80 && sb[1] < 0x80)
+	key, str := "<"+string(kb), string(sb)
+	var f1, f2, x1, x2 bool
+	if ci == 0 {
+		f1, f2 = h.Choose("html1", 0, 1) == 1, h.Choose("html2", 0, 1) == 1
+		x1, x2 = h.Choose("radix1", 0, 1) == 1, h.Choose("radix2", 0, 1) == 1
+	}
+	enc := func(html, radix bool, out *sink, errOut *error) func() {
+		return func() {
+			out.B = nil
+			v := c.newVisitor(out)
+			if jv, ok := v.(*json.Visitor); ok {
+				jv.SetEscapeHTML(html)
+				jv.SetExplicitRadixPoint(radix)
+			}
+			err := v.OnObjectStart(2, structform.AnyType)
+			step := func(e error) {
+				if err == nil {
+					err = e
+				}
+			}
+			step(v.OnKey(key))
+			step(v.OnString(str))
+			step(v.OnKey("f"))
+			step(v.OnFloat64(2))
+			step(v.OnObjectFinished())
+			*errOut = err
+		}
+	}
+	var o1, o2, a1, a2 sink
+	var e1, e2, e3, e4 error
+	h.Go(enc(f1, x1, &o1, &e1), enc(f2, x2, &o2, &e2))
+	h.AssertIndependent("independent")
+	enc(f1, x1, &a1, &e3)()
+	enc(f2, x2, &a2, &e4)()
+	h.Assert("no-error", e1 == nil && e2 == nil && e3 == nil && e4 == nil)
+	h.Assert("same-result-as-alone", rt.BytesEq(o1.B, a1.B) && rt.BytesEq(o2.B, a2.B))
 }
